@@ -44,6 +44,7 @@ type Check struct {
 	Extra    map[string]any
 	Variants []string
 	loopSeen map[*ssa.BasicBlock]bool
+	Anchors  map[string]bool // functions the rules anchor on (resolved through F)
 }
 
 func (c *Check) add(o *Obligation) *Obligation {
@@ -94,6 +95,10 @@ func (c *Check) F(name string) *ssa.Function {
 		c.Funcs = map[string]bool{}
 	}
 	c.Funcs[name] = true
+	if c.Anchors == nil {
+		c.Anchors = map[string]bool{}
+	}
+	c.Anchors[name] = true
 	return fn
 }
 
